@@ -181,6 +181,7 @@ def _cover(ob, budget):
 CROSS_SAMPLE = int(os.environ.get("VERIF_CROSS_SAMPLE", "0"))  # k > 0: keep the SMT text of every k-th discharged obligation
 MAX_PATHS = int(os.environ.get("VERIF_MAX_PATHS", "1500"))
 TASK_TIMEOUT_S = int(os.environ.get("VERIF_TASK_TIMEOUT_S", "400"))  # one path: exploration + all its obligations
+TASK_RETRY_AFTER_S = int(os.environ.get("VERIF_TASK_RETRY_AFTER_S", "120"))  # a path task that is silent for this long is submitted once more (normal: seconds)
 UNIT_BUDGET_S = int(os.environ.get("VERIF_UNIT_BUDGET_S", "900"))  # wall-clock cap of one verify_units call (normal: 1-2 min)
 DEFAULT_BUDGETS = {"default": {"z3": 20, "cvc5": 20, "finite": 1, "kmax": 4}, "special": []}
 
@@ -216,6 +217,7 @@ def _verify_units(units, budgets, workers, report, t0, ctx):
             ar = pool.apply_async(run_path, (task,))
             ar._vc_unit = task[0]
             ar._vc_t0 = time.time()
+            ar._vc_task, ar._vc_try = task, 1
             pending.append(ar)
 
         for u in units:
@@ -234,10 +236,17 @@ def _verify_units(units, budgets, workers, report, t0, ctx):
             for ar in pending:
                 if getattr(ar, "_vc_unit", None) is not None and report[ar._vc_unit]["error"] and not ar.ready():
                     continue  # the unit is already undecided: its remaining paths are abandoned (killed with the pool)
-                if not ar.ready() and time.time() - getattr(ar, "_vc_t0", t0) > TASK_TIMEOUT_S and getattr(ar, "_vc_unit", None) is not None:
-                    # a path task that never comes back (a worker process died, a solver call ignored its timeout):
-                    # the function is undecided, the check goes on
-                    report[ar._vc_unit]["error"] = report[ar._vc_unit]["error"] or f"Unsupported: a path task did not return within {TASK_TIMEOUT_S} s (worker lost or solver stuck)"
+                limit = TASK_RETRY_AFTER_S if getattr(ar, "_vc_try", 1) == 1 else TASK_TIMEOUT_S
+                if not ar.ready() and time.time() - getattr(ar, "_vc_t0", t0) > limit and getattr(ar, "_vc_unit", None) is not None:
+                    # a path task that never comes back (a worker process died - the pool recycles its workers -, a solver
+                    # call ignored its timeout): it is submitted once more; if the second attempt does not come back either the
+                    # function is undecided, and the check goes on
+                    if getattr(ar, "_vc_try", 1) == 1 and getattr(ar, "_vc_task", None) is not None:
+                        ar2 = pool.apply_async(run_path, (ar._vc_task,))
+                        ar2._vc_unit, ar2._vc_t0, ar2._vc_task, ar2._vc_try = ar._vc_unit, time.time(), ar._vc_task, 2
+                        still.append(ar2)
+                        continue
+                    report[ar._vc_unit]["error"] = report[ar._vc_unit]["error"] or f"Unsupported: a path task did not return within {TASK_TIMEOUT_S} s, twice (worker lost or solver stuck)"
                     continue
                 if ar.ready():
                     progressed = True
@@ -258,9 +267,11 @@ def _verify_units(units, budgets, workers, report, t0, ctx):
                         rep["error"] = f"Unsupported: verification time budget of {UNIT_BUDGET_S} s exceeded ({len(rep['paths'])} paths explored)"
                         continue
                     for pf in out["pending"]:
-                        ar2 = pool.apply_async(run_path, ((out["unit"], out["case"], pf, budgets),))
+                        task2 = (out["unit"], out["case"], pf, budgets)
+                        ar2 = pool.apply_async(run_path, (task2,))
                         ar2._vc_unit = out["unit"]
                         ar2._vc_t0 = time.time()
+                        ar2._vc_task, ar2._vc_try = task2, 1
                         still.append(ar2)
                 else:
                     still.append(ar)
